@@ -97,6 +97,8 @@ type Opts struct {
 	LogLevel    string
 	// Hosts without a mysync daemon.
 	NoDaemon map[string]bool
+	// FirstDaemon, when set, is started first so that it wins the manager lock.
+	FirstDaemon string
 }
 
 // Sim is one simulated cluster.
@@ -265,7 +267,15 @@ func (s *Sim) Start() {
 			if s.O.NoDaemon[h] {
 				continue
 			}
-			s.StartInst(h, time.Duration(i)*700*time.Millisecond+time.Duration(s.Rng.Intn(600))*time.Millisecond)
+			d := time.Duration(i)*700*time.Millisecond + time.Duration(s.Rng.Intn(600))*time.Millisecond
+			if s.O.FirstDaemon != "" {
+				if h == s.O.FirstDaemon {
+					d = time.Duration(s.Rng.Intn(300)) * time.Millisecond
+				} else {
+					d += 1500 * time.Millisecond
+				}
+			}
+			s.StartInst(h, d)
 		}
 	}
 	s.wg.Add(1)
@@ -669,6 +679,7 @@ func (s *Sim) WaitUntil(max, step time.Duration, cond func() bool) bool {
 type Canonical struct {
 	OK     bool
 	Why    string
+	Code   string // short cause code for finding signatures
 	Master string
 }
 
@@ -688,13 +699,21 @@ func (s *Sim) CheckCanonical(reachable func(h string) bool) Canonical {
 	}
 	sort.Strings(writable)
 	if len(writable) != 1 {
-		return Canonical{Why: fmt.Sprintf("writable servers: %v", writable), Master: master}
+		code := "no-writable-server"
+		if len(writable) > 1 {
+			code = "several-writable-servers"
+		}
+		return Canonical{Why: fmt.Sprintf("writable servers: %v", writable), Code: code, Master: master}
 	}
 	if writable[0] != master {
-		return Canonical{Why: fmt.Sprintf("writable %s != recorded master %q", writable[0], master), Master: master}
+		return Canonical{Why: fmt.Sprintf("writable %s != recorded master %q", writable[0], master), Code: "writable-is-not-recorded-master", Master: master}
 	}
 	if s.W.Servers[master].Offline {
-		return Canonical{Why: "master is offline", Master: master}
+		code := "master-offline"
+		if _, marked := s.Cached("recovery/" + master); marked {
+			code = "recorded-master-offline-with-recovery-mark"
+		}
+		return Canonical{Why: "the recorded master is writable but in offline mode (client sessions are refused)", Code: code, Master: master}
 	}
 	for _, h := range s.O.HA {
 		if h == master || (reachable != nil && !reachable(h)) {
@@ -705,10 +724,10 @@ func (s *Sim) CheckCanonical(reachable func(h string) bool) Canonical {
 			continue
 		}
 		if !srv.ReadOnly {
-			return Canonical{Why: h + " is not read-only", Master: master}
+			return Canonical{Why: h + " is not read-only", Code: "replica-not-read-only", Master: master}
 		}
 		if srv.Source != master || !srv.IORun || !srv.SQLRun || srv.LastIOErrno != 0 || srv.LastSQLErrno != 0 {
-			return Canonical{Why: fmt.Sprintf("%s not replicating from master (src=%q io=%v sql=%v)", h, srv.Source, srv.IORun, srv.SQLRun), Master: master}
+			return Canonical{Why: fmt.Sprintf("%s not replicating from master (src=%q io=%v sql=%v)", h, srv.Source, srv.IORun, srv.SQLRun), Code: "replica-not-following", Master: master}
 		}
 	}
 	return Canonical{OK: true, Master: master}
